@@ -32,7 +32,10 @@ pub struct Env {
     pub report_fails: bool,
 }
 
-pub static ENV: Mutex<Option<Env>> = Mutex::new(None);
+thread_local! {
+    pub static ENV: std::cell::RefCell<Option<Env>> = std::cell::RefCell::new(None);
+}
+pub static REPORT_FAILS: std::sync::atomic::AtomicBool = std::sync::atomic::AtomicBool::new(false);
 pub static LOG: Mutex<Vec<String>> = Mutex::new(Vec::new());
 pub static DEPTH_VIOLATIONS: Mutex<Vec<String>> = Mutex::new(Vec::new());
 
@@ -72,9 +75,8 @@ pub fn check_hook(_url: &str, req: PatchCheckRequest) -> anyhow::Result<PatchChe
         hx(&g("release_version")),
         extra
     ));
-    let env = ENV.lock().unwrap();
-    let env = env.as_ref().unwrap();
-    match &env.resp {
+    let resp = ENV.with(|e| e.borrow().as_ref().and_then(|e| e.resp.clone()));
+    match &resp {
         None => anyhow::bail!("injected check failure"),
         Some(r) => Ok(PatchCheckResponse {
             patch_available: r.avail,
@@ -95,10 +97,10 @@ pub fn download_hook(url: &str) -> anyhow::Result<Vec<u8>> {
     if let Some(h) = *crate::sched::NET_HOOK.lock().unwrap() {
         h("download");
     }
-    let env = ENV.lock().unwrap();
-    match &env.as_ref().unwrap().dl {
+    let dl = ENV.with(|e| e.borrow().as_ref().and_then(|e| e.dl.clone()));
+    match dl {
         None => anyhow::bail!("injected download failure"),
-        Some(b) => Ok(b.clone()),
+        Some(b) => Ok(b),
     }
 }
 
@@ -160,8 +162,7 @@ pub fn report_hook(_url: &str, req: CreatePatchEventRequest) -> anyhow::Result<(
     let v = serde_json::to_value(&req).unwrap();
     let ev = v.get("event").cloned().unwrap_or(serde_json::Value::Null);
     LOG.lock().unwrap().push(format!("E:{}", event_string(&ev)));
-    let env = ENV.lock().unwrap();
-    if env.as_ref().map_or(false, |e| e.report_fails) {
+    if REPORT_FAILS.load(std::sync::atomic::Ordering::SeqCst) {
         anyhow::bail!("injected report failure");
     }
     Ok(())
@@ -475,10 +476,12 @@ impl World {
     }
 
     pub fn set_env(resp: Option<RespSpec>, dl: Option<Vec<u8>>) {
-        *ENV.lock().unwrap() = Some(Env {
-            resp,
-            dl,
-            report_fails: false,
+        ENV.with(|e| {
+            *e.borrow_mut() = Some(Env {
+                resp,
+                dl,
+                report_fails: false,
+            })
         });
     }
 
@@ -577,6 +580,15 @@ impl World {
 
     // executes one op and returns its canonical output
     pub fn exec(&mut self, toks: &[&str]) -> String {
+        if let ["dmg", rest @ ..] = toks {
+            self.damage(rest);
+            return "unit".into();
+        }
+        self.exec_api(toks)
+    }
+
+    // API calls only (usable from several threads)
+    pub fn exec_api(&self, toks: &[&str]) -> String {
         match toks {
             ["init", rel, y, p] => self.init(rel, y, *p == "t").to_string(),
             ["kill"] => {
@@ -614,10 +626,6 @@ impl World {
                 Self::set_env(r, dl);
                 self.update(&ostr_tok(ch))
             }
-            ["dmg", rest @ ..] => {
-                self.damage(rest);
-                "unit".into()
-            }
             _ => panic!("bad op {:?}", toks),
         }
     }
@@ -631,6 +639,7 @@ pub fn main(args: &[String]) -> i32 {
     let mut w = World::new(&root);
     let keep = std::env::var("UVH_KEEP").is_ok();
     let mut cur_hist: Option<PathBuf> = None;
+    let mut sched_threads: Vec<Vec<Vec<String>>> = vec![];
     use std::io::Write;
     let stdout = std::io::stdout();
     let mut out = std::io::BufWriter::new(stdout.lock());
@@ -670,6 +679,24 @@ pub fn main(args: &[String]) -> i32 {
                 out.flush().unwrap();
             }
             "applypatch" | "sha" | "wfm" | "sdiff" | "varint" => {}
+            "t0" | "t1" | "t2" => {
+                let idx: usize = toks[0][1..].parse().unwrap();
+                while sched_threads.len() <= idx {
+                    sched_threads.push(vec![]);
+                }
+                sched_threads[idx].push(toks[2..].iter().map(|s| s.to_string()).collect());
+            }
+            "order" => {
+                let order: Vec<usize> = toks[1].split(',').filter(|x| !x.is_empty()).map(|x| x.parse().unwrap()).collect();
+                LOG.lock().unwrap().clear();
+                let outs = crate::sched::run(&w, std::mem::take(&mut sched_threads), &order);
+                wait_quiescent();
+                w.snapshot();
+                let mut net = LOG.lock().unwrap().clone();
+                net.sort();
+                writeln!(out, "{}", abs_line(&outs, &w.storage, &net)).unwrap();
+                out.flush().unwrap();
+            }
             other => panic!("bad line {other}"),
         }
     }
